@@ -3,11 +3,17 @@ CONSTANT Letters <- MCLetters
 CONSTANT VK <- MCVK
 CONSTANT WK <- MCWK
 CONSTANT Acc <- MCAcc
+CONSTANT Opt <- MCOpt
+CONSTANT Mdl <- MCMdl
+CONSTANT InPlace <- MCInPlace
 CONSTANT MaxLen = 3
 CONSTANT Policy = "clear_at_entry"
 CONSTANT SeedsRng = TRUE
+CONSTANT ReaderCopies = TRUE
 INVARIANT TypeOK
 INVARIANT HistoryIndependent
 INVARIANT NoFailureFromHistory
+INVARIANT CallerStateUntouched
+INVARIANT ContainerIndependent
 INVARIANT NoExposure
 CHECK_DEADLOCK FALSE
